@@ -50,6 +50,8 @@ def make_xf(extras, rot, allow_structural=True):
         for s in extras:
             if s in have:
                 continue
+            if s in ('Copy', 'Clone') and any(ty.startswith("&'static mut") for ty in all_tys):
+                continue
             if s == 'Copy' and not all(any(ty.startswith(c) for c in COPY_TYPES) for ty in all_tys):
                 continue
             if s == 'Copy' and 'Clone' not in have and 'Clone' not in extras:
